@@ -65,6 +65,12 @@ def plan(tier, seed):
                 rs = [([3], [1, 3]), ([3], [3, 1])] + (rs[2:] if tier == 'thorough' else [])
             for a, b in rs:
                 jobs.append(dict(base, kind='reshape', shape=a, shape2=b))
+            # ---- (d) memory layout: the same grid stored column-major (a transposed raster, a Fortran-ordered file) gives
+            # the result of the row-major grid - flat views / ravel() of such arrays are copies, order='K' walks memory order
+            if cc != 'heavy':
+                jobs.append(dict(base, kind='reshape', shape=[2, 2], shape2=[2, 2], layout='F'))
+                if tier == 'thorough':
+                    jobs.append(dict(base, kind='reshape', shape=[3, 2], shape2=[3, 2], layout='F'))
     seen, out = set(), []
     for j in jobs:
         key = json.dumps(j, sort_keys=True)
